@@ -9,6 +9,7 @@ import (
 	"bufio"
 	"encoding/binary"
 	"errors"
+	"fmt"
 	"io"
 
 	"github.com/pion/rtp"
@@ -64,6 +65,18 @@ type PacketWriter interface {
 	WriteRtpPacket(packet *Packet) error
 }
 
+// unmarshalHeader parses the RTP header of p. pion/rtp indexes past the end of the
+// packet when a header extension declares an element longer than the data that is
+// there; such a packet is reported as malformed instead of panicking in the reader.
+func unmarshalHeader(p *Packet) (err error) {
+	defer func() {
+		if r := recover(); r != nil {
+			err = fmt.Errorf("malformed RTP header: %v", r)
+		}
+	}()
+	return p.Header.Unmarshal(p.Data)
+}
+
 // ReadPacket 根据规范从 r 中读取 rtp 包.
 // channelConfig 提供通道类型所在通道的配置信息
 func ReadPacket(r *bufio.Reader, channelConfig []int) (*Packet, error) {
@@ -94,7 +107,7 @@ func ReadPacket(r *bufio.Reader, channelConfig []int) (*Packet, error) {
 		if v == channel {
 			p.Channel = byte(i)
 			if p.Channel == ChannelVideo || p.Channel == ChannelAudio {
-				if err = p.Header.Unmarshal(p.Data); err != nil {
+				if err = unmarshalHeader(p); err != nil {
 					// 整个交错帧已读完，流仍然同步：连同包一起返回，由调用者决定忽略
 					return p, err
 				}
